@@ -7,20 +7,20 @@ wt=/tmp/msweep/s2wt$id
 git -C /repo worktree add -q --detach $wt HEAD 2>/dev/null
 order() {
   case $1 in
-    writer_*) echo "C17 C14 C09 C15 C02 C08" ;;
-    reader_*) echo "C17 C16 C06 C05 C02 C08" ;;
-    state_*) echo "C17 C15 C02" ;;
+    writer_*) echo "C17 C14 C09 C15" ;;
+    reader_*) echo "C17 C16 C06 C05" ;;
+    state_*) echo "C17 C15" ;;
     compressing_reader_*) echo "C18 C09" ;;
-    internal_lz4stream_block_*) echo "C09 C06 C05 C17 C16 C15 C02 C08" ;;
+    internal_lz4stream_block_*) echo "C09 C06 C05 C17 C16 C15" ;;
     internal_lz4stream_frame_*) echo "C19 C06 C05 C09 C07 C17" ;;
-    internal_lz4block_block_*) echo "C01 C10 C14 C11" ;;
+    internal_lz4block_block_*) echo "C01 C10 C14" ;;
     internal_lz4block_decode_other_*) echo "C12 C03 C04" ;;
-    internal_lz4block_blocks_*) echo "C09 C02 C07" ;;
+    internal_lz4block_blocks_*) echo "C09 C07" ;;
     internal_xxh32_*) echo "C13 C09" ;;
   esac
 }
 i=0
-grep -h SURVIVES /tmp/msweep/stage1.[0-9]* | sort | while read name _ props; do
+cat /tmp/msweep/todo.txt | while read name; do
   i=$((i+1)); [ $((i % n)) -eq $id ] || continue
   git -C $wt checkout -q -- .
   git -C $wt apply /tmp/msweep/patches/$name.diff || continue
@@ -31,7 +31,7 @@ grep -h SURVIVES /tmp/msweep/stage1.[0-9]* | sort | while read name _ props; do
     res="$res $c=$rc"
     if [ $rc -eq 1 ]; then hit=$c; break; fi
   done
-  if [ -n "$hit" ]; then echo "$name DETECTED by $hit ($res)" >> /tmp/msweep/stage2.$id; else echo "$name UNDETECTED ($res)" >> /tmp/msweep/stage2.$id; fi
+  if [ -n "$hit" ]; then echo "$name DETECTED by $hit ($res)" >> /tmp/msweep/${S2OUT:-stage2}.$id; else echo "$name UNDETECTED ($res)" >> /tmp/msweep/${S2OUT:-stage2}.$id; fi
 done
 git -C $wt checkout -q -- .
 echo "worker $id done" >> /tmp/msweep/stage2.done
